@@ -634,6 +634,41 @@ func systematicPkgCases(id *int, profile, scratch string, rng *rand.Rand, tier s
 				return strings.ReplaceAll(y, "/etc/expdir/", "/etc/${VERIF_APP}/")
 			}, map[string]string{"VERIF_APP": "expdir"})
 		}
+		// a symlink whose target is an opted-in reference; entries with an owner and no group (root's); names of one character
+		// directly below the root; names that start with a dot directly below the root
+		{
+			c := baseCfg("explink")
+			c.Entries = []Entry{plain, {Type: "symlink", Src: "libexp.so.3", Dst: "/usr/lib/explink/libexp.so", Expand: true},
+				{Type: "file", Src: "src/app.conf", Dst: "/usr/lib/explink/libexp.so.3", Expand: true}}
+			addEnv(c, smallTree(), "expanded-symlink-target", func(y string) string {
+				return strings.ReplaceAll(y, "libexp.so.3", "libexp.so.${VERIF_SOVER}")
+			}, map[string]string{"VERIF_SOVER": "3"})
+			c2 := baseCfg("owneronly")
+			c2.Entries = []Entry{plain, {Type: "file", Src: "src/app.conf", Dst: "/etc/owneronly/app.conf", Fi: Fi{Owner: "app"}, HasFi: true},
+				{Type: "dir", Dst: "/var/lib/owneronly", Fi: Fi{Owner: "app", Mode: 0o750}, HasFi: true}, {Type: "config", Src: "src/extra.conf", Dst: "/etc/owneronly/extra.conf", Fi: Fi{Group: "adm"}, HasFi: true},
+				{Type: "tree", Src: "src/sub", Dst: "/usr/share/owneronly", Fi: Fi{Owner: "app"}, HasFi: true}}
+			add(c2, smallTree(), "owner-without-group")
+			c3 := baseCfg("onechar")
+			c3.Entries = []Entry{plain, {Type: "file", Src: "src/app.conf", Dst: "/x"}, {Type: "dir", Dst: "/e/", Fi: Fi{Mode: 0o750}, HasFi: true}, {Type: "file", Src: "src/extra.conf", Dst: "/e/f"},
+				{Type: "symlink", Src: "x", Dst: "/l"}, {Type: "file", Src: "src/empty", Dst: "/d/y"}}
+			add(c3, smallTree(), "one-character-names-at-the-root")
+			c4 := baseCfg("topdot")
+			c4.Entries = []Entry{plain, {Type: "config", Src: "src/app.conf", Dst: "/.hidden/app.conf"}, {Type: "file", Src: "src/extra.conf", Dst: "/.x"}, {Type: "dir", Dst: "/.cache/topdot"},
+				{Type: "config|noreplace", Src: "src/extra.conf", Dst: "/..data/keep.conf"}}
+			add(c4, smallTree(), "dot-names-at-the-root")
+		}
+		// an entry at the destination a link INSIDE a tree takes (either order): one of the two would be replaced - rejected
+		for _, first := range []bool{true, false} {
+			c := baseCfg("treelinkclash")
+			f := Entry{Type: "file", Src: "src/app.conf", Dst: "/usr/share/treelinkclash/lnk"}
+			t := Entry{Type: "tree", Src: "src/sub", Dst: "/usr/share/treelinkclash"}
+			if first {
+				c.Entries = []Entry{plain, f, t}
+			} else {
+				c.Entries = []Entry{plain, t, f}
+			}
+			add(c, smallTree(), "entry-at-a-tree-links-destination")
+		}
 		// an owner / group name no GNU tar header can hold (more than 32 bytes), on a declared directory, on a file: deb and ipk
 		// cannot ship the entry as declared and say so; rpm, apk and archlinux store the name
 		for vi, e := range []Entry{{Type: "dir", Dst: "/var/lib/longname", Fi: Fi{Owner: strings.Repeat("o", 40), Group: "g", Mode: 0o750}, HasFi: true},
